@@ -926,6 +926,20 @@ fn c13(idx: usize, ctx: &Ctx, rpt: &mut Report) {
         );
         return;
     }
+    // A glob discards a directory as a tree "because a component cannot match it": a directory
+    // beneath which the glob itself matches an entry was not one of those.
+    if let Some((d, e)) = ran.sim.matches_beneath_glob_discards.first() {
+        rpt.disagreement(
+            &ctx.known,
+            "glob-walk-discards-a-directory-beneath-which-the-glob-matches",
+            None,
+            json!({"case": wit(), "discarded": d, "matching_entry": e}),
+        );
+        return;
+    }
+    if !ran.sim.td_by_glob.is_empty() {
+        rpt.bucket("glob-discards-compared-with-the-complete-program");
+    }
     // (a) Nothing beneath an effectively cancelled directory is read afterwards.
     let mut current: Option<(PathBuf, bool)> = None;
     let mut cancelled: Vec<PathBuf> = Vec::new();
